@@ -180,8 +180,8 @@ func (s *sched) run(nthreads int, prefs []int) []string {
 		}
 		// wait (bounded) for the preferred thread to arrive
 		for i := 0; i < 20 && pending[want] == nil && finished < nthreads; i++ {
-			drain(500 * time.Microsecond)
-			if len(pending) > 0 && i >= 6 {
+			drain(300 * time.Microsecond)
+			if len(pending) > 0 && i >= 2 {
 				break
 			}
 		}
